@@ -429,6 +429,14 @@ func (gb *gcpBalancer) getSubConnRoundRobin(ctx context.Context) *subConnRef {
 	return scRef
 }
 
+// currentSubConn returns the SubConn currently serving the subConnRef. The SubConn of a
+// subConnRef is replaced (under the balancer lock) when the ref is refreshed.
+func (gb *gcpBalancer) currentSubConn(ref *subConnRef) balancer.SubConn {
+	gb.mu.RLock()
+	defer gb.mu.RUnlock()
+	return ref.subConn
+}
+
 // bindSubConn binds the given affinity key to an existing subConnRef.
 func (gb *gcpBalancer) bindSubConn(bindKey string, sc balancer.SubConn) {
 	gb.mu.Lock()
